@@ -153,7 +153,7 @@ PROPS = {
                  "thorough": [fam("vset", 100000, 6), fam("sig", 50000, 5), fam("call", 60000, 0, "general"), fam("hist", 30000, 0), fam("result", 50000, 5)]},
     },
     "C16": {
-        "claim": "Theorems about the option builder: every key holds its last write, names are matched through lower-casing, call options override defaults, nil values write nothing, a nil option yields the dedicated error, permuting options with pairwise distinct keys leaves the maps unchanged. Tied to the code by comparing the real builder's four maps (hook VerifBuilder) with the model over random option lists with casings, duplicates, default/call splits and a random permutation.",
+        "claim": "Theorems about the option builder: every key holds its last write, names are matched through lower-casing, call options override defaults, nil values write nothing, a nil option yields the dedicated error, permuting options with pairwise distinct keys leaves the maps unchanged. Tied to the code by comparing the real builder's four maps (hook VerifBuilder) with the model over random option lists with casings, duplicates, default/call splits and a random permutation. Spellings: named_empty_name, namedSub_empty_name, namedSub_empty_subtype, typedSub_empty_subtype, valueArg_eq_namedSub, valueSetArgs_build(For) — a value's own Arg() and a value set's Args() supply exactly NamedSubtype(name, value, subtype) per value, in order; the harness uses these spellings interchangeably.",
         "note": "strings.ToLower is modelled as ASCII lower-casing.",
         "theorems": ["ArgMapper.C16.last_wins", "ArgMapper.C16.build_ok", "ArgMapper.C16.nil_option", "ArgMapper.C16.nil_value_ignored", "ArgMapper.C16.case_insensitive", "ArgMapper.C16.lower_idem", "ArgMapper.C16.call_overrides_default", "ArgMapper.C16.permutation",
                      "ArgMapper.C16.named_empty_name", "ArgMapper.C16.namedSub_empty_name", "ArgMapper.C16.namedSub_empty_subtype",
@@ -173,7 +173,7 @@ PROPS = {
         "exhaustive": {"quick": False, "thorough": False},
     },
     "C01": {
-        "claim": "Theorems: the matching table is closed under flow along the edge rules (flow_compat, needs ImplTrans and ImplAntisym); every edge of the graph callGraph builds is an instance of a rule (callGraph_edges); for every oracle and behaviour every executed function receives a full argument list whose members entered the graph at an origin vertex and flowed to the parameter vertex (call_args_flow); together: injection_sound_partial. Every executed function receives supplied or previously returned values whose origin label is compatible with the parameter under the matching table. Tied to the code by trace conformance: the real call graph, requirement order, Dijkstra pop orders, chosen paths, every argument list and the outcome are replayed through the model; the predicate is evaluated on the real trace with provenance ids.",
+        "claim": "Theorems: the matching table is closed under flow along the edge rules (flow_compat, needs ImplTrans and ImplAntisym); every edge of the graph callGraph builds is an instance of a rule (callGraph_edges); for every oracle and behaviour every executed function receives a full argument list whose members entered the graph at an origin vertex and flowed to the parameter vertex (call_args_flow); together: injection_sound_partial. Every executed function receives supplied or previously returned values whose origin label is compatible with the parameter under the matching table. Tied to the code by trace conformance: the real call graph, requirement order, Dijkstra pop orders, chosen paths, every argument list and the outcome are replayed through the model; the predicate is evaluated on the real trace with provenance ids. Values, not only labels, over whole histories (Model/Hist.lean): memo_from_history, no_fabrication_call, no_fabrication_hist(_shared) — every argument of every execution of every Call of a history of Calls and Redefines on shared function objects is a value that call was given or a value an execution of the history returned (hypotheses: the output value sets are well keyed, which newFunc guarantees, and bodies return one value per declared result; three kernel-checked counterexamples show both are needed).",
         "note": "reflect / hclog / user function bodies are modelled (arbitrary behaviours); twin interfaces (finding F14) excluded by hypothesis once proved.",
         "theorems": ["ArgMapper.C01.flow_compat", "ArgMapper.C01.callGraph_edges", "ArgMapper.C01.call_args_flow", "ArgMapper.C01.initSt_storeOK", "ArgMapper.C01.flow_ruleFlow", "ArgMapper.C01.callGraph_store_origin", "ArgMapper.C01.injection_sound_partial", "ArgMapper.C01.counterexample_twin_interfaces", "ArgMapper.C01.newFunc_keysOK", "ArgMapper.C01.callGraph_no_arg_root", "ArgMapper.C01.stdCtx_funcsOK", "ArgMapper.C01.injection_sound", "ArgMapper.C01.memo_from_history", "ArgMapper.C01.no_fabrication_call", "ArgMapper.C01.no_fabrication_hist", "ArgMapper.C01.no_fabrication_hist_shared", "ArgMapper.C01.stdCtx_keysOK", "ArgMapper.C01.hist_memoFull", "ArgMapper.C01.no_fabrication_call_original_false_set", "ArgMapper.C01.no_fabrication_call_original_false_cell", "ArgMapper.C01.no_fabrication_hist_original_false"],
         "facts": {"r5SkipSame": "true", "r6NameTest": "true", "publishAfterUpdate": "true", "trackReaching": "true", "takeValuedNamed": "true", "hopCopies": "true", "memoCopy": "true"},
@@ -229,13 +229,13 @@ PROPS = {
         "runs": {"quick": [fam("call", 250, 0, "affinity")], "thorough": [fam("call", 20000, 0, "affinity")]},
     },
     "C13": {
-        "claim": "Theorems: hopeless_reported (uses the verified DFS model, the edge characterisation and flow_compat), unsat_are_parameters, exact_not_listed, inputs_are_supplied, unsat_before_execution. The unsatisfied-argument error lists the hopeless parameter, only underivable parameters, exactly the supplied values, every supplied converter, and its message mentions each missing argument. Tied to the code by comparing the structured error fields (errors.As) of the real code with the model on scenarios with a hopeless parameter.",
+        "claim": "Theorems: hopeless_reported (uses the verified DFS model, the edge characterisation and flow_compat), unsat_are_parameters, exact_not_listed, inputs_are_supplied, unsat_before_execution. The unsatisfied-argument error lists the hopeless parameter, only underivable parameters, exactly the supplied values, every supplied converter, and its message mentions each missing argument. Tied to the code by comparing the structured error fields (errors.As) of the real code with the model on scenarios with a hopeless parameter. The message: message_mentions_missing / _input / _converter about the model of Error() (Model/ErrMsg.lean), tied to the real text by counting, for every entry the model lists, the lines of the real message that end with it.",
         "note": "", "theorems": ["ArgMapper.C13.hopeless_reported", "ArgMapper.C13.unsat_before_execution", "ArgMapper.C13.unsat_are_parameters", "ArgMapper.C13.exact_not_listed", "ArgMapper.C13.inputs_are_supplied", "ArgMapper.C13.ruleFlow_iff_lib", "ArgMapper.C13.gaps_classified", "ArgMapper.C13.message_mentions_missing", "ArgMapper.C13.message_mentions_input", "ArgMapper.C13.message_mentions_converter"], "facts": {"r5SkipSame": "true", "r6NameTest": "true", "publishAfterUpdate": "true", "trackReaching": "true", "takeValuedNamed": "true", "hopCopies": "true", "memoCopy": "true"},
         "rule": "call: an unsatisfied error with a converter present, or a function executed.",
         "runs": {"quick": [fam("call", 600, 0, "hopeless"), fam("hist", 400, 0)], "thorough": [fam("call", 50000, 0, "hopeless"), fam("hist", 30000, 0)]},
     },
     "C08": {
-        "claim": "Theorems: inputs_filtered_fresh (every declared input passes the input filter and is not a supplied vertex, any oracle), output_filter, succeeds_when_permitted (subtype-free single-input fragment, any oracle: every parameter permitted and outputs admitted => the planning run succeeds), callable_graph / callable (same fragment: the call the redefined function makes is never refused for lack of an argument; two counterexamples to the statements without the one-type-per-name / lower-case-name hypotheses), inputSet_root_adjacent, root_adjacent_supplied_or_permitted. Redefine yields a function over exactly the missing, permitted inputs. Tied to the code by replaying the planning run (redefine-mode reachTarget with zero-producing stand-ins) through the model: call graph with filter-gated root edges, requirement order, pop orders, paths and the declared input set are compared; the redefined function is then called and the inner Call is replayed as an ordinary call with the extra values.",
+        "claim": "Theorems: inputs_filtered_fresh (every declared input passes the input filter and is not a supplied vertex, any oracle), output_filter, succeeds_when_permitted (subtype-free single-input fragment, any oracle: every parameter permitted and outputs admitted => the planning run succeeds), callable_graph / callable (same fragment: the call the redefined function makes is never refused for lack of an argument; two counterexamples to the statements without the one-type-per-name / lower-case-name hypotheses), inputSet_root_adjacent, root_adjacent_supplied_or_permitted. Redefine yields a function over exactly the missing, permitted inputs. Tied to the code by replaying the planning run (redefine-mode reachTarget with zero-producing stand-ins) through the model: call graph with filter-gated root edges, requirement order, pop orders, paths and the declared input set are compared; the redefined function is then called and the inner Call is replayed as an ordinary call with the extra values. Filter combinators: evalAny_iff, evalAll_iff, or_nil, and_nil, and_singleton, or_singleton, and_or_or, or_of_singleton_ands; the Redefine family replays both filters with the nesting the harness builds (empty and nested combinators included).",
         "note": "premise of the property: single-input converters, no subtypes, one type per name (the generator respects it).",
         "theorems": ["ArgMapper.C08.succeeds_when_permitted", "ArgMapper.C08.callable_graph", "ArgMapper.C08.callable", "ArgMapper.C08.newFunc_lowerNames", "ArgMapper.C08.counterexample_upper_case_name", "ArgMapper.C08.counterexample_name_with_two_types", "ArgMapper.C08.inputs_filtered_fresh", "ArgMapper.C08.declared_not_supplied", "ArgMapper.C08.output_filter", "ArgMapper.C08.inputSet_root_adjacent", "ArgMapper.C08.root_adjacent_supplied_or_permitted", "ArgMapper.C08.evalAny_iff", "ArgMapper.C08.evalAll_iff", "ArgMapper.C08.or_nil", "ArgMapper.C08.and_nil", "ArgMapper.C08.and_singleton", "ArgMapper.C08.or_singleton", "ArgMapper.C08.and_or_or", "ArgMapper.C08.or_of_singleton_ands"], "facts": {"r5SkipSame": "true", "r6NameTest": "true", "publishAfterUpdate": "true", "trackReaching": "true", "takeValuedNamed": "true", "hopCopies": "true", "memoCopy": "true", "r8SkipSupplied": "true", "skipRecordsInput": "false", "dupIsError": "true", "onceLockCoversCall": "true"},
         "rule": "redef: any planning run; call: at least one function executed.",
@@ -257,7 +257,7 @@ PROPS = {
         "runs": {"quick": [fam("conv", 500, 0), fam("convseq", 60, 0), fam("race", 40, 8, "25", bin="harness-race")], "thorough": [fam("conv", 50000, 0), fam("convseq", 2000, 0), fam("race", 500, 8, "40", bin="harness-race")]},
     },
     "C11": {
-        "claim": "Theorems: once_at_most_once and first_result_kept over any history of calls; memo_hit; reuse_never_panics; the concurrent protocol theorem C12.once_concurrent (any number of threads, any schedule). A run-once function executes at most once over any history and later uses see the first result. Sequential part: histories of Call / Redefine on shared function objects are replayed through the model with the memo cells threaded, and the number of executions per run-once function is counted on the real trace. Concurrent part: see DESIGN.md (race-detector stress; not yet registered).",
+        "claim": "Theorems: once_at_most_once and first_result_kept over any history of calls; memo_hit; reuse_never_panics; the concurrent protocol theorem C12.once_concurrent (any number of threads, any schedule). A run-once function executes at most once over any history and later uses see the first result. Sequential part: histories of Call / Redefine on shared function objects are replayed through the model with the memo cells threaded, and the number of executions per run-once function is counted on the real trace. Concurrent part: see DESIGN.md (race-detector stress; not yet registered). With Redefines interleaved (history model): once_at_most_once_hist, first_result_kept_hist, not_run_no_memo.",
         "note": "partial: the concurrent clause is decided by exploration under the race detector.",
         "theorems": ["ArgMapper.C11.once_at_most_once", "ArgMapper.C11.first_result_kept", "ArgMapper.C11.memo_hit", "ArgMapper.C11.reuse_never_panics", "ArgMapper.C11.counterexample_ptr_result", "ArgMapper.C12.once_concurrent", "ArgMapper.C12.lock_holder_progresses", "ArgMapper.C12.counterexample_two_first_uses", "ArgMapper.C11.once_at_most_once_hist", "ArgMapper.C11.first_result_kept_hist", "ArgMapper.C11.not_run_no_memo"], "facts": {"r5SkipSame": "true", "r6NameTest": "true", "publishAfterUpdate": "true", "trackReaching": "true", "takeValuedNamed": "true", "hopCopies": "true", "memoCopy": "true", "r8SkipSupplied": "true", "skipRecordsInput": "false", "dupIsError": "true", "onceLockCoversCall": "true"},
         "rule": "hist: a run-once function was needed at least once.",
